@@ -211,6 +211,30 @@ example : (readValue exSys exC 1 exM1 exH').1 = .ok (some [5, 7, 9]) := by decid
 example : (roleCount exC 1 [2] exH').1 = .ok [1, 0] ∧ (roleCount exC 1 [3] exH').1 = .ok [0, 1]
     ∧ (personsHaveRole exC 1 [2] exH').1 = .ok [false, true, false] := by decide +kernel
 
+/-- an Enum input present when the clone is taken (member indices 2 and 5), compared with the member 2 by a formula
+calculated in the CLONE: the clone reads its copy of the store, and what it reads still compares as an `EnumArray` -/
+example :
+    let sys : Sys := [{ entity := 0, defPeriod := .month, dflt := 0, formula := none, isEnum := true },
+                      vd 0 .month 0 (some (0, [⟨1, 0, .enumIs 2, .same⟩]))]
+    let h0 := runSide sys 40 exS [.setInput 0 exM1 [2, 5]] (build { persons := 2, groups := [], memConfig := none } []).2
+    let h1 := (cloneSim exS false false h0).2
+    (step sys 40 exC (.calculate 1 exM1) h1).1 = .ok (.vec [1, 0])
+    ∧ (readValue sys exC 0 exM1 h1).1 = .ok (some [2, 5]) := by decide +kernel
+
+/-- an input given for a quarter to a monthly variable with `set_input_dispatch_by_period`: the original knows
+February when it is cloned; the CLONE deletes its February and is given the quarter — its three months take the
+value — while the original, given the same quarter, only fills January and March -/
+example :
+    let sys : Sys := [{ entity := 0, defPeriod := .month, dflt := 0, formula := none, dispatch := true }]
+    let q1 : Period := ⟨.month, ⟨2018, 1, 1⟩, 3⟩
+    let h0 := runSide sys 40 exS [.setInput 0 exM2 [5]] (build { persons := 1, groups := [], memConfig := none } []).2
+    let h1 := (cloneSim exS false false h0).2
+    let h2 := runOps sys 40 exS exC [(.clone, .deleteArrays 0 (some exM2)), (.clone, .setInput 0 q1 [9]),
+                                    (.orig, .setInput 0 q1 [7])] h1
+    (readValue sys exC 0 exM2 h2).1 = .ok (some [9]) ∧ (readValue sys exS 0 exM2 h2).1 = .ok (some [5])
+    ∧ (readValue sys exS 0 exM1 h2).1 = .ok (some [7]) ∧ (readKnown sys exC 0 h2).1.toOption.map List.length = some 3 := by
+  decide +kernel
+
 /-- **Restricted to memory-backed simulations** (the full statement — for every simulation — is false of
 the code and of the model: `Holder.clone` copies `_disk_storage` by reference and both simulations write
 into one temporary directory, finding F-C13-disk; see `C13_disk_shared_counterexample`).
@@ -249,6 +273,47 @@ theorem C13_noninterference_partial (sys : Sys) (fuel : Nat) (h : Heap) (s : Id)
   have hk := run_side_agree sys fuel s c hne .clone ops h' h' cs cc rfl
   exact ⟨⟨(observe_region (x := s) rfl ho.2.1 ho.1).symm, ho.2.2⟩,
     ⟨(observe_region (x := c) rfl hk.2.1 hk.1).symm, hk.2.2⟩⟩
+
+/-- **Any operations, not only the listed calls** (same restriction to memory-backed simulations).  The
+non-interference above uses one fact about a call: it is *local* to the region of the simulation it is made on
+(`Loc`: from a heap whose region is closed it keeps the region closed, leaves every other region as it was,
+opens no region, and its answer and its effect depend on that region alone — the frame rule).  So it holds for
+EVERY interleaving of ARBITRARY local computations on the two sides, of any result type: compositions of calls
+(`Loc.bind`), conditionals, loops over lists (`Loc.mapMH`), `try/finally`, calls that raise half-way, and any
+future public method whose transcription only navigates references of its own simulation.  What each side
+observes at the end, and what each of its computations answered, are what they are when the side runs alone.
+`C13_noninterference_partial` is the instance `m = step sys fuel x op` (`step_loc`). -/
+theorem C13_any_local_operations_noninterfere {α : Type} (h : Heap) (s : Id) (tr dbg : Bool) (h' : Heap) (c : Id)
+    (hwf : WellFormed h s) (hmem : MemoryBacked h s) (hc : cloneSim s tr dbg h = (.ok c, h'))
+    (ops : List (Side × HM α)) (hloc : ∀ e ∈ ops, Loc (sideId s c e.1).reg e.2 (fun _ => True)) :
+    ((observe s (runAny ops h')).1 = (observe s (runAnySide (ops.filterMap (onSideAny .orig)) h')).1
+      ∧ resultsAny .orig ops h' = resultsAnySide (ops.filterMap (onSideAny .orig)) h')
+    ∧ ((observe c (runAny ops h')).1 = (observe c (runAnySide (ops.filterMap (onSideAny .clone)) h')).1
+      ∧ resultsAny .clone ops h' = resultsAnySide (ops.filterMap (onSideAny .clone)) h')
+    ∧ Closed s.reg (runAny ops h') ∧ Closed c.reg (runAny ops h') := by
+  obtain ⟨hne, cs, cc⟩ := clone_regions hwf hmem hc
+  have ho := run_any_agree s c hne .orig ops hloc h' h' cs cc rfl
+  have hk := run_any_agree s c hne .clone ops hloc h' h' cs cc rfl
+  exact ⟨⟨(observe_region (x := s) rfl ho.2.1 ho.1).symm, ho.2.2.2⟩,
+    ⟨(observe_region (x := c) rfl hk.2.2.1 hk.1).symm, hk.2.2.2⟩, ho.2.1, ho.2.2.1⟩
+
+/-- computations that are no single call of `Op`: "set an input, then invalidate its cache entry, then read it
+back through the `persons` route" on the clone, "delete and recalculate" on the original — local, because they
+are composed of local calls -/
+example : ∀ e ∈ ([(Side.clone, (do
+      let _ ← step exSys 40 exC (.setInput 0 exM2 [9, 9, 9])
+      let _ ← step exSys 40 exC (.invalidate 0 exM2)
+      step exSys 40 exC (.readVia .persons 0 0 exM2))),
+    (Side.orig, (do
+      let _ ← step exSys 40 exS (.deleteArrays 1 none)
+      step exSys 40 exS (.calculate 1 exM1)))] : List (Side × HM Out)),
+    Loc (sideId exS exC e.1).reg e.2 (fun _ => True) := by
+  intro e he
+  simp only [List.mem_cons, List.not_mem_nil, or_false] at he
+  rcases he with rfl | rfl
+  · exact Loc.bind (step_loc exSys 40 (x := exC) rfl _) fun _ _ =>
+      Loc.bind (step_loc exSys 40 (x := exC) rfl _) fun _ _ => step_loc exSys 40 (x := exC) rfl _
+  · exact Loc.bind (step_loc exSys 40 (x := exS) rfl _) fun _ _ => step_loc exSys 40 (x := exS) rfl _
 
 /- The full statements (DESIGN Appendix D), kept visible. They are NOT theorems: both are false of the code
    and of the model for a simulation with a memory configuration (`C13_disk_shared_counterexample` below);
@@ -301,6 +366,37 @@ theorem C13_family_noninterference (sys : Sys) (fuel : Nat) (h : Heap) (sims : L
     ∧ resultsCalls sys fuel sims j calls h = resultsSide sys fuel x (calls.filterMap (callsOf j)) h := by
   have f := family_agree sys fuel sims hd j x hj calls h h hc rfl
   exact ⟨(observe_region (x := x) rfl f.2.1 f.1).symm, f.2.2⟩
+
+/-- … and for ARBITRARY computations, each local (`Loc`) to the region of the member it is addressed to: whatever
+is done to the other members of the family — in any number, in any order, of any kind — a member observes, and
+its own computations answer, what they do when it runs alone; every member's region stays closed. -/
+theorem C13_family_any_local_operations (α : Type) (h : Heap) (sims : List Id)
+    (hd : sims.Pairwise (fun a b => a.reg ≠ b.reg)) (hc : ∀ y ∈ sims, Closed y.reg h)
+    (calls : List (Nat × HM α))
+    (hloc : ∀ e ∈ calls, ∃ y, sims[e.1]? = some y ∧ Loc y.reg e.2 (fun _ => True))
+    (j : Nat) (x : Id) (hj : sims[j]? = some x) :
+    (observe x (runFamilyAny calls h)).1 = (observe x (runAnySide (calls.filterMap (ofRankAny j)) h)).1
+    ∧ resultsFamilyAny j calls h = resultsAnySide (calls.filterMap (ofRankAny j)) h
+    ∧ ∀ y ∈ sims, Closed y.reg (runFamilyAny calls h) := by
+  have f := family_any_agree sims hd j x hj calls hloc h h hc rfl
+  exact ⟨(observe_region (x := x) rfl (f.2.1 x (List.mem_of_getElem? hj)) f.1).symm, f.2.2, f.2.1⟩
+
+/-- three simulations (an original, its clone, the clone's clone); a composed computation on the third one -/
+example :
+    let st := runEvs exSys 40 [.clone 0 false false, .clone 1 true false] (exH, [exS])
+    st.2 = [⟨0, 0⟩, ⟨1, 0⟩, ⟨2, 0⟩] ∧
+    ∀ e ∈ ([(2, (do let _ ← step exSys 40 ⟨2, 0⟩ (.invalidate 1 exM1); step exSys 40 ⟨2, 0⟩ (.calculate 1 exM1))),
+            (0, step exSys 40 ⟨0, 0⟩ (.deleteArrays 1 none))] : List (Nat × HM Out)),
+      ∃ y, st.2[e.1]? = some y ∧ Loc y.reg e.2 (fun _ => True) := by
+  refine ⟨by decide +kernel, ?_⟩
+  intro e he
+  have hst : (runEvs exSys 40 [.clone 0 false false, .clone 1 true false] (exH, [exS])).2 = [⟨0, 0⟩, ⟨1, 0⟩, ⟨2, 0⟩] := by
+    decide +kernel
+  simp only [List.mem_cons, List.not_mem_nil, or_false] at he
+  rcases he with rfl | rfl
+  · exact ⟨⟨2, 0⟩, by rw [hst]; rfl,
+      Loc.bind (step_loc exSys 40 (x := ⟨2, 0⟩) rfl _) fun _ _ => step_loc exSys 40 (x := ⟨2, 0⟩) rfl _⟩
+  · exact ⟨⟨0, 0⟩, by rw [hst]; rfl, step_loc exSys 40 (x := ⟨0, 0⟩) rfl (.deleteArrays 1 none)⟩
 
 /-- Chains.  `Separate h sims`: the live simulations are in pairwise distinct regions, each closed and *tidy*
 (no memory configuration, no temporary directory, `persons` listed, the person population without `members`
